@@ -166,3 +166,28 @@ mut("benign-wire-let-binding", "C09", "yrs/src/state_vector.rs", "        encode
     "        let n = self.len();\n        encoder.write_var(n);\n        for (&client, &clock) in self.iter() {", None, kind="benign", also=["C09"])
 mut("benign-awareness-nested-if", "C18", "yrs/src/sync/awareness.rs", "                    if state.clock < clock || is_removed {", "                    let newer = state.clock < clock;\n                    if newer || is_removed {", None, kind="benign", also=["C18"])
 mut("benign-commit-comment-stmt", "C07", T, "        // 5. try GC delete set\n        if !self.store.skip_gc {", "        // 5. try GC delete set\n        let gc_enabled = !self.store.skip_gc;\n        if gc_enabled {", None, kind="benign", also=["C07", "C15"])
+
+
+# ---------------------------------------------------------------- rules added after seeded misses (round 2)
+mut("c01f-case2-no-clear", "C01", B, "                    if !conflicting_items.contains(&origin_left) {\n                        left = Some(item);\n                        conflicting_items.clear();",
+    "                    if !conflicting_items.contains(&origin_left) {\n                        left = Some(item);", "C01.f", also=["C04"])
+mut("c01f-case2-polarity", "C01", B, "                    if !conflicting_items.contains(&origin_left) {", "                    if conflicting_items.contains(&origin_left) {", "C01.f")
+mut("c01f-sets-swapped", "C01", B, "                if items_before_origin.contains(&origin_left) {\n                    // case 2\n                    if !conflicting_items.contains(&origin_left) {",
+    "                if conflicting_items.contains(&origin_left) {\n                    // case 2\n                    if !items_before_origin.contains(&origin_left) {", "C01.f")
+mut("c01f-case1-no-right-origin", "C01", B, "                } else if self.right_origin == item.right_origin {\n                    // `self` and `item` are conflicting",
+    "                } else if true {\n                    // `self` and `item` are conflicting", "C01.f")
+mut("c01f-benign-inverted-if", "C01", B, "            if self.origin == item.origin {\n                // case 1\n                if item.id.client < self.id.client {\n                    left = Some(item);\n                    conflicting_items.clear();\n                } else if self.right_origin == item.right_origin {",
+    "            let same_origin = self.origin == item.origin;\n            if same_origin {\n                // case 1\n                let lower = item.id.client < self.id.client;\n                if lower {\n                    left = Some(item);\n                    conflicting_items.clear();\n                } else if self.right_origin == item.right_origin {", "", kind="benign", also=["C04"])
+mut("c03e-format-gap-tombstones", "C03", "yrs/src/types/text.rs", "            ItemContent::Format(key, value) if !item.is_deleted() => {\n                update_current_attributes(end_attrs, key.as_ref(), value);",
+    "            ItemContent::Format(key, value) => {\n                update_current_attributes(end_attrs, key.as_ref(), value);", "C03.e", also=["C17"])
+mut("c08e-no-resort-after-advance", "C08", U, "                if cid.client != first_client || // check whether there is another decoder that has has updates from `firstClient`\n                    (iterated && cid.clock > curr_write_last)\n",
+    "                let _ = iterated;\n                if cid.client != first_client\n", "C08.e")
+mut("c08e-benign-nested-if", "C08", U, "                if cid.client != first_client || // check whether there is another decoder that has has updates from `firstClient`\n                    (iterated && cid.clock > curr_write_last)\n                // the above while loop was used and we are potentially missing updates\n                {\n                    continue;\n                }",
+    "                if cid.client != first_client {\n                    continue;\n                }\n                if iterated {\n                    if curr_write_last < cid.clock {\n                        continue;\n                    }\n                }", "", kind="benign")
+mut("c09packed-div", "C09", "yrs/src/updates/decoder.rs", "            self.diff = (diff >> 1) as i32;", "            self.diff = diff / 2;", "C09.packed", also=["C10"])
+mut("c09packed-benign-temp", "C09", "yrs/src/updates/decoder.rs", "            self.diff = (diff >> 1) as i32;", "            let half = diff >> 1;\n            self.diff = half;", "", kind="benign", also=["C10"])
+mut("c10-read-buf-usize", "C10", "yrs/src/encoding/read.rs", "        let len: u32 = self.read_var()?;\n        self.read_exact(len as usize)", "        let len: usize = self.read_var()?;\n        self.read_exact(len)", "read_exact|assert:Overflow(Add)#0")
+mut("c12f-parent-single-hop", "C12", B, "                let mut redone = parent.redone;\n                while let Some(id) = redone.as_ref() {\n                    parent_block = txn\n                        .store\n                        .blocks\n                        .get_item_clean_start(id)\n                        .map(|slice| txn.store.materialize(slice));\n                    redone = parent_block.and_then(|ptr| ptr.redone);\n                }",
+    "                if let Some(id) = parent.redone.as_ref() {\n                    parent_block = txn\n                        .store\n                        .blocks\n                        .get_item_clean_start(id)\n                        .map(|slice| txn.store.materialize(slice));\n                }", "C12.f")
+mut("c12f-left-trace-single-hop", "C12", B, "                while let Some(trace) = left_trace.as_deref() {\n                    let p = trace.parent.as_branch().and_then(|p| p.item);\n                    if parent_block != p {",
+    "                if let Some(trace) = left_trace.as_deref() {\n                    let p = trace.parent.as_branch().and_then(|p| p.item);\n                    if parent_block != p {", "C12.f")
